@@ -13,11 +13,14 @@ IsEvent(e) == l <= Len(Rec) /\ Rec[l].ev = e /\ l' = l + 1
 Chk(name, cond) == IF cond THEN TRUE ELSE PrintT(<<"FAIL", l, "C04", name>>)
 Row(s, f) == LET k == CHOOSE k \in DOMAIN Schema : Schema[k].struct = s /\ Schema[k].field = f IN Schema[k]
 HasRow(s, f) == \E k \in DOMAIN Schema : Schema[k].struct = s /\ Schema[k].field = f
+\* a rule the extractor does not know (a predicate of the code base with a new name) is judged by the round trips alone
+KnownSkip == {"never", "empty", "none", "zero", "one", "true"}
 \* an instance of a struct was serialised: each field was given a value of a known class
 TKeys == /\ IsEvent("Keys")
          /\ Chk("KeyWrittenIffNotInSkipClass",
                 \A n \in DOMAIN Ev.fields : LET f == Ev.fields[n] IN
-                   HasRow(Ev.struct, f.field) => (f.present = (f.class # Row(Ev.struct, f.field).skip)))
+                   (HasRow(Ev.struct, f.field) /\ Row(Ev.struct, f.field).skip \in KnownSkip)
+                      => (f.present = (f.class # Row(Ev.struct, f.field).skip)))
          /\ Chk("EveryFieldKnownToTheSchema", \A n \in DOMAIN Ev.fields : HasRow(Ev.struct, Ev.fields[n].field))
 TRound == /\ IsEvent("Roundtrip")
           /\ Chk("Loads", Ev.loads)
